@@ -4,11 +4,19 @@
 // consensus decoding; here that result is the uninterpreted dec_spec
 pub uninterp spec fn dec_spec(blob: Seq<u8>, txid: Txid) -> Option<Transaction>;
 pub struct DecryptingError;
+pub uninterp spec fn enc_spec(tx: Transaction, txid: Txid) -> Seq<u8>;
+#[derive(Debug)]
+pub struct EncryptingError;
 pub mod cryptography {
     use super::*;
     #[verifier::external_body]
     pub fn decrypt(encrypted_blob: &[u8], secret: &Txid) -> (res: Result<Transaction, DecryptingError>)
         ensures match res { Ok(t) => dec_spec(encrypted_blob@, *secret) == Some(t), Err(_) => dec_spec(encrypted_blob@, *secret) is None }
+    { unimplemented!() }
+    // TRUSTED: AEAD encryption of a transaction does not fail (the `blob` unit proves the wiring of the real function)
+    #[verifier::external_body]
+    pub fn encrypt(message: &Transaction, secret: &Txid) -> (r: Result<Vec<u8>, EncryptingError>)
+        ensures r is Ok, r->Ok_0@ == enc_spec(*message, *secret)
     { unimplemented!() }
     #[verifier::external_body]
     pub fn recover_pk(msg: &[u8], sig: &str) -> (r: Result<PublicKey, Secp256k1Error>)
